@@ -63,6 +63,69 @@ func reLayout(r *rand.Rand, text string) (string, bool) {
 	return "", false
 }
 
+// spreadOut inserts a single blank into every gap between two tokens that has no whitespace, as
+// long as the query still parses to the same statements (a blank is not allowed everywhere: `f (x)`,
+// `a ::float`, `db. rp`). All gaps at once first; if that changes the parse, gap by gap.
+func spreadOut(text string) string {
+	want, err := queryDump(text)
+	if err != nil {
+		return text
+	}
+	toks := splitTokens(text)
+	same := func(t string) bool {
+		d, err := queryDump(t)
+		return err == nil && d == want
+	}
+	join := func(blank []bool) string {
+		var b strings.Builder
+		for i, t := range toks {
+			if i > 0 && blank[i] {
+				b.WriteByte(' ')
+			}
+			b.WriteString(t)
+		}
+		return b.String()
+	}
+	// candidate gaps: between two non-blank tokens
+	cand := make([]bool, len(toks))
+	for i := 1; i < len(toks); i++ {
+		cand[i] = !isBlankTok(toks[i-1]) && !isBlankTok(toks[i])
+	}
+	if all := join(cand); same(all) {
+		return all
+	}
+	keep := make([]bool, len(toks))
+	for i := 1; i < len(toks); i++ {
+		if !cand[i] {
+			continue
+		}
+		keep[i] = true
+		if !same(join(keep)) {
+			keep[i] = false
+		}
+	}
+	return join(keep)
+}
+
+var reLeaf = regexp.MustCompile(`\(re s:([0-9a-f,]*)\)`)
+
+// regexWithLayout reports whether the statement contains a regular expression literal with white
+// space or a comment opener inside: the plain scanner, which finds the token boundaries for the
+// re-layout, would cut such a literal into several tokens.
+func regexWithLayout(text string) bool {
+	d, err := queryDump(text)
+	if err != nil {
+		return true
+	}
+	for _, m := range reLeaf.FindAllStringSubmatch(d, -1) {
+		src, err := decStr("s:" + m[1])
+		if err != nil || strings.ContainsAny(src, " \t\r\n") || strings.Contains(src, "--") || strings.Contains(src, "/*") {
+			return true
+		}
+	}
+	return false
+}
+
 func genNeutralStmt(r *rand.Rand, n int, emit func(args ...string)) {
 	fixed := [][2]string{
 		{"SELECT a INTO db.rp :MEASUREMENT FROM m", "SELECT a INTO db.rp /*c*/ :MEASUREMENT FROM m"},
@@ -97,10 +160,23 @@ func genNeutralStmt(r *rand.Rand, n int, emit func(args ...string)) {
 	for i := 0; i < n; i++ {
 		k := 1 + r.Intn(3)
 		var parts []string
+		rich := r.Intn(2) == 0
 		for j := 0; j < k; j++ {
 			g := newSgen(r)
-			g.plain = true
-			parts = append(parts, genStmtText(g))
+			// half of the cases: the plain layout (few clauses, single names); the other half:
+			// the full statement generator (field lists, aliases, calls, casts, subqueries,
+			// segmented names, every option) in whatever layout it chose
+			g.plain = !rich
+			t := genStmtText(g)
+			if rich && (!g.valid || strings.Contains(t, ";") || regexWithLayout(t)) {
+				g = newSgen(r)
+				g.plain = true
+				t = genStmtText(g)
+			}
+			// token boundaries are found by counting the runes the reader delivers: fold CR
+			// and CRLF first, as the reader does (the variant gets its own line ends)
+			t = strings.NewReplacer("\r\n", "\n", "\r", "\n").Replace(t)
+			parts = append(parts, t)
 			if r.Intn(5) == 0 {
 				parts = append(parts, "")
 			}
@@ -108,6 +184,12 @@ func genNeutralStmt(r *rand.Rand, n int, emit func(args ...string)) {
 		base := strings.Join(parts, " ; ")
 		if r.Intn(3) == 0 {
 			base += " ;"
+		}
+		// two thirds of the cases: a blank in every inter-token gap where one is allowed (the
+		// property quantifies over every gap that contains whitespace, and the plain layout has
+		// none before commas, inside parentheses, around dots ...)
+		if r.Intn(3) != 0 {
+			base = spreadOut(base)
 		}
 		variant, ok := reLayout(r, base)
 		if !ok {
